@@ -2487,7 +2487,9 @@ cesu8_to_unicode(uint32_t *pwc, const char *s, size_t n)
 		}
 		cnt = _utf8_to_unicode(&wc2, s+3, n-3);
 		if (cnt != 3 || !IS_LOW_SURROGATE_LA(wc2)) {
-			/* Invalid byte sequence. */
+			/* Invalid byte sequence: consume the unpaired
+			 * high surrogate only. */
+			cnt = 3;
 			goto invalid_sequence;
 		}
 		wc = combine_surrogate_pair(wc, wc2);
